@@ -541,6 +541,17 @@ def rule_T_JUXTAPOSE(ctx, T, models=("enum", "lex"), only_written=None):
                 continue
             if written is not None:
                 inst = [i for i in inst if i[2] in written]
+            # atom prefix + name head: a longer prefix must not be obtainable as (prefix) + (identifier-character head of a name)
+            if only_written is None or model == "enum":
+                P = [x for x in pre if x]
+                for p1 in sorted(set(P) | {""}):
+                    for p2 in sorted(set(P)):
+                        if p2 != p1 and p2.startswith(p1):
+                            x = p2[len(p1):]
+                            head_ok = bool(x) and ident(x) and not x.startswith("-") and (p1 != "" )
+                            if head_ok and not any(x.startswith(q) for q in P):
+                                ctx.ob("T-JUXTAPOSE", "%s %s prefix %r + name starting %r reads as prefix %r" % (model, name, p1, x, p2), False,
+                                       "the longer prefix wins the first-match: the atom kind and the name change")
             total += len(cops)
             for kind, u, c, c2, x in inst:
                 if kind == "tail":
